@@ -118,6 +118,12 @@ Print Assumptions is_acyclic_undirected_exact.
 
 (** ** get_cycles *)
 
+(** The depth budget of the traversal (length g + 1) is never exhausted: the model always answers. *)
+Theorem get_cycles_total (g : graph) (directed : option bool) (comp : list nat) (d : bool) :
+  wf_graph g -> resolve_directed g directed = Ok d -> exists cs, get_cycles g directed comp = Ok cs.
+Proof. exact (get_cycles_total_lemma g directed comp d). Qed.
+Print Assumptions get_cycles_total.
+
 (** Every returned list is a simple cycle of the input (distinct nodes of the graph, consecutive
     edges, closing edge; never of length 2 in the undirected case), and no two returned lists are
     the same cycle up to rotation (directed) / rotation and orientation (undirected). *)
